@@ -104,6 +104,7 @@ type End struct {
 	fmu    sync.Mutex
 	faults []Fault
 	sent   [][]byte // copies of everything passed to Send (successful or not)
+	given  [][]byte // the very slices that were passed to Send (not copied), parallel to sent
 }
 
 // ByValue is an End handed to the library as a struct VALUE whose type is not
@@ -181,6 +182,7 @@ func (e *End) Send(rec []byte) error {
 	e.event("send.enter", cp)
 	e.fmu.Lock()
 	e.sent = append(e.sent, cp)
+	e.given = append(e.given, rec)
 	e.fmu.Unlock()
 	if e.check != nil {
 		if err := e.check(cp); err != nil {
@@ -357,6 +359,21 @@ func (e *End) InjectFail(err error) {
 	q.fail = err
 	q.cond.Broadcast()
 	q.mu.Unlock()
+}
+
+// ReusedAfterSend looks at the last n buffers that were passed to Send and reports the
+// first whose bytes are no longer what they were when it was sent. A channel may hand
+// the sender's buffer to the receiver without copying it (channel.Direct does, and says
+// so), therefore a sender must not write to a buffer again once it has sent it.
+func (e *End) ReusedAfterSend(n int) (idx int, was, now []byte, reused bool) {
+	e.fmu.Lock()
+	defer e.fmu.Unlock()
+	for i := max(0, len(e.sent)-n); i < len(e.sent); i++ {
+		if g := e.given[i]; !bytes.Equal(g[:len(e.sent[i]):len(e.sent[i])], e.sent[i]) {
+			return i, e.sent[i], append([]byte(nil), g[:len(e.sent[i])]...), true
+		}
+	}
+	return 0, nil, nil, false
 }
 
 // CloseQuiet closes e's sending direction (the peer reads EOF after draining)
